@@ -393,6 +393,27 @@ def relations(ctx, quick):
             if bad:
                 fails.append({"relation": "yaml-option==--option", "key": k, "value": cv, "numeric": isinstance(yv, int) and not isinstance(yv, bool),
                               "what": "outputs differ", "files": bad})
+    # the same with a description that has NO options section of its own (and several options at once)
+    bare = {"library": "bareopt", "cxx_header": "b.hpp", "declarations": [{"decl": "void f0(int a)"}, {"decl": "int f1(const char *s)"},
+                                                                           {"decl": "class Cb", "declarations": [{"decl": "int get() const"}]}]}
+    multi = [("wrap_python", True, "true"), ("wrap_fortran", False, "false"), ("debug", True, "true"), ("C_line_length", 60, "60")]
+    for sub in ([multi[0]], [multi[1], multi[3]], multi):
+        A = copy.deepcopy(bare)
+        for (k, yv, _) in sub:
+            put(A, "options", k, yv)
+        tag = "r3bare_" + "_".join(k for k, _, _ in sub)
+        ra = run_lib(ctx, A, tag + "_A")
+        rb = run_lib(ctx, bare, tag + "_B", extra=[x for (k, _, cv) in sub for x in ("--option", "%s=%s" % (k, cv))])
+        ctx.count(1, ("r3bare", tag))
+        ctx.hist("rel:yaml==cli:no-options-section")
+        if ra[0] != 0 or rb[0] != 0:
+            fails.append({"relation": "yaml-option==--option", "key": tag, "value": "description without an options section", "numeric": False,
+                          "what": "run failed", "which": "yaml" if ra[0] else "cli", "output": (ra[1] if ra[0] else rb[1])[-700:]})
+        else:
+            bad = diff_files(ra[2], rb[2])
+            if bad:
+                fails.append({"relation": "yaml-option==--option", "key": tag, "value": "description without an options section", "numeric": False,
+                              "what": "outputs differ", "files": bad})
     for lang in ("c", "c++"):
         A = copy.deepcopy(BASE_LIB)
         A["language"] = lang
